@@ -39,10 +39,13 @@ class ControlledLoop(asyncio.SelectorEventLoop):
             if self._scheduled and self._scheduled[0]._when > self._sfv_now:
                 self._sfv_now = self._scheduled[0]._when
         if self._sfv_shuffle and len(self._ready) > 1:
-            items = list(self._ready)
+            # thread-safe: other threads (aiosqlite's worker, executors) append to `_ready` through
+            # call_soon_threadsafe at any moment; deque.popleft/extendleft are atomic and leave concurrent
+            # appends at the right end (a snapshot + clear() + extend() would drop them => fake hangs)
+            n = len(self._ready)
+            items = [self._ready.popleft() for _ in range(n)]
             self._sfv_rng.shuffle(items)
-            self._ready.clear()
-            self._ready.extend(items)
+            self._ready.extendleft(reversed(items))
             self.sfv_reorders += 1
         super()._run_once()
 
